@@ -250,6 +250,13 @@ func ledgerMain(s ledgerSpec, args []string) int {
 		sched.WorkerMain(c03Scenarios())
 		return 0
 	}
+	if s.id == "C09" && fs.NArg() >= 1 && fs.Arg(0) == "schedworker" {
+		sched.WorkerMain(c09Scenarios())
+		return 0
+	}
+	if s.id == "C09" && *replay != "" && isSchedReplay(*replay) {
+		return sched.ReplayFile("C09", c09Scenarios(), *replay)
+	}
 	if s.id == "C01" && fs.NArg() >= 1 && fs.Arg(0) == "schedworker" {
 		sched.WorkerMain(c01Scenarios())
 		return 0
@@ -336,6 +343,13 @@ func ledgerMain(s ledgerSpec, args []string) int {
 		ex, div := c03SchedRun(rep, *procs)
 		if !ex {
 			rep.Set("exhaustive", false)
+		}
+		total.Diverged += div
+	}
+	if s.id == "C09" && *run == "" {
+		ex, div := c09SchedRun(rep, *procs)
+		if !ex {
+			rep.Set("sched_note", "SCHED part capped; SPACE part exhaustive within its bound")
 		}
 		total.Diverged += div
 	}
